@@ -480,4 +480,393 @@ theorem run_vmfault (e : Kevent) (rest : List Kevent) (hw : Words4 (e :: rest)) 
 
 end mach
 
+/-! ### dyld.py: `handle_timing_launch_executable` -/
+
+section sort
+variable {α β : Type}
+
+theorem insertByKey_map (f : α → β) (x : Nat × α) (l : List (Nat × α)) :
+    insertByKey (x.1, f x.2) (l.map fun p => (p.1, f p.2)) = (insertByKey x l).map fun p => (p.1, f p.2) := by
+  induction l with
+  | nil => rfl
+  | cons y ys ih =>
+    simp only [List.map_cons, insertByKey]
+    split
+    · rfl
+    · rw [List.map_cons, ih]
+
+/-- sorting commutes with a map that keeps the keys -/
+theorem sortByKey_map (f : α → β) (l : List (Nat × α)) :
+    sortByKey (l.map fun p => (p.1, f p.2)) = (sortByKey l).map fun p => (p.1, f p.2) := by
+  induction l with
+  | nil => rfl
+  | cons x xs ih =>
+    show insertByKey (x.1, f x.2) (sortByKey (xs.map fun p => (p.1, f p.2))) = _
+    rw [ih, insertByKey_map]
+    rfl
+
+theorem mem_insertByKey (x y : Nat × α) (l : List (Nat × α)) (h : y ∈ insertByKey x l) : y = x ∨ y ∈ l := by
+  induction l with
+  | nil => simpa [insertByKey] using h
+  | cons z zs ih =>
+    simp only [insertByKey] at h
+    split at h
+    · simpa using h
+    · rcases List.mem_cons.mp h with h | h
+      · right; simp [h]
+      · rcases ih h with h | h
+        · left; exact h
+        · right; simp [h]
+
+theorem mem_sortByKey (y : Nat × α) (l : List (Nat × α)) (h : y ∈ sortByKey l) : y ∈ l := by
+  induction l with
+  | nil => simp [sortByKey] at h
+  | cons x xs ih =>
+    rcases mem_insertByKey x y _ h with h | h
+    · simp [h]
+    · simp [ih h]
+
+theorem insertByKey_eq_insertStable (x : Nat × Bytes) (l : List (Nat × Bytes)) : insertByKey x l = insertStable x l := by
+  induction l with
+  | nil => rfl
+  | cons y ys ih => simp only [insertByKey, insertStable, ih]
+
+/-- on (load address, uuid) pairs the interpreter's `sorted` is the hand model's -/
+theorem sortByKey_eq_sortStable (l : List (Nat × Bytes)) : sortByKey l = sortStable l := by
+  induction l with
+  | nil => rfl
+  | cons x xs ih =>
+    show insertByKey x (sortByKey xs) = insertStable x (sortStable xs)
+    rw [ih, insertByKey_eq_insertStable]
+
+end sort
+
+section dyld
+variable (env : Env) (nested : NestedFn) (t : Tabs)
+
+theorem lookup_launch (events : List Kevent) :
+    runHandler Expected.dyld env nested "DBG_DYLD_TIMING_LAUNCH_EXECUTABLE" t events =
+      runBody Expected.dyld env nested "DBG_DYLD_TIMING_LAUNCH_EXECUTABLE" Expected.handleLaunch t events := rfl
+
+/-- `DyldUuidMapA(events, UUID(bytes=…), args[2], args[3])` / `DyldUuidSharedCacheA(…)` of one record -/
+def imgObj (cls : String) (x : Kevent) (u : Bytes) : Val := .obj cls [x] [.uuid u, .int (arg x 2), .int (arg x 3)]
+
+def ImgCls (cls : String) : Prop := cls = "DyldUuidMapA" ∨ cls = "DyldUuidSharedCacheA"
+
+theorem attr_img_loadAddr (cls : String) (hc : ImgCls cls) (l : List Kevent) (a b c : Val) :
+    objAttr Expected.dyld cls l [a, b, c] "load_addr" = .ok b := by
+  rcases hc with rfl | rfl <;> rfl
+
+theorem attr_img_uuid (cls : String) (hc : ImgCls cls) (l : List Kevent) (a b c : Val) :
+    objAttr Expected.dyld cls l [a, b, c] "uuid" = .ok a := by
+  rcases hc with rfl | rfl <;> rfl
+
+/-- (load address, (image object, uuid bytes)) of the records, or the first `UUID(bytes=…)` ValueError -/
+def masterOf (cls : String) : List Kevent → Except PyErr (List (Nat × (Val × Bytes)))
+  | [] => .ok []
+  | x :: xs =>
+    match uuidBytes x with
+    | .error e => .error e
+    | .ok u =>
+      match masterOf cls xs with
+      | .error e => .error e
+      | .ok r => .ok ((arg x 2, (imgObj cls x u, u)) :: r)
+
+/-- the hand model's `recs.mapM …` -/
+def imgsOf : List Kevent → Except PyErr (List (Nat × Bytes))
+  | [] => .ok []
+  | x :: xs =>
+    match uuidBytes x with
+    | .error e => .error e
+    | .ok u =>
+      match imgsOf xs with
+      | .error e => .error e
+      | .ok r => .ok ((arg x 2, u) :: r)
+
+theorem mapM_eq_imgsOf (l : List Kevent) :
+    l.mapM (fun e => do let u ← uuidBytes e; pure (arg e 2, u)) = imgsOf l := by
+  induction l with
+  | nil => rfl
+  | cons x xs ih =>
+    rw [List.mapM_cons, ih, imgsOf]
+    cases uuidBytes x <;> cases imgsOf xs <;> rfl
+
+theorem imgsOf_append (a b : List Kevent) :
+    imgsOf (a ++ b) =
+      match imgsOf a with
+      | .error e => .error e
+      | .ok ra => match imgsOf b with | .error e => .error e | .ok rb => .ok (ra ++ rb) := by
+  induction a with
+  | nil => simp only [List.nil_append, imgsOf]; cases imgsOf b <;> rfl
+  | cons x xs ih =>
+    simp only [List.cons_append, imgsOf, ih]
+    cases uuidBytes x <;> cases imgsOf xs <;> cases imgsOf b <;> rfl
+
+theorem imgsOf_master (cls : String) (l : List Kevent) :
+    imgsOf l = match masterOf cls l with | .error e => .error e | .ok M => .ok (M.map fun p => (p.1, p.2.2)) := by
+  induction l with
+  | nil => rfl
+  | cons x xs ih =>
+    simp only [imgsOf, masterOf, ih]
+    cases uuidBytes x <;> cases masterOf cls xs <;> rfl
+
+/-- every entry of the master list is an image object with that key and uuid -/
+theorem master_good (cls : String) (hc : ImgCls cls) (l : List Kevent) (M : List (Nat × (Val × Bytes)))
+    (h : masterOf cls l = .ok M) :
+    ∀ m ∈ M, imageOfVal Expected.dyld m.2.1 = some (m.1, m.2.2) ∧ attrOf Expected.dyld m.2.1 "load_addr" = .ok (.int m.1) := by
+  induction l generalizing M with
+  | nil => simp only [masterOf, Except.ok.injEq] at h; subst h; intro m hm; cases hm
+  | cons x xs ih =>
+    simp only [masterOf] at h
+    cases hu : uuidBytes x with
+    | error e => rw [hu] at h; cases h
+    | ok u =>
+      rw [hu] at h
+      cases hr : masterOf cls xs with
+      | error e => rw [hr] at h; cases h
+      | ok r =>
+        rw [hr] at h
+        simp only [Except.ok.injEq] at h
+        subst h
+        intro m hm
+        rcases List.mem_cons.mp hm with rfl | hm
+        · simp [imageOfVal, imgObj, attrOf_obj, attr_img_loadAddr cls hc, attr_img_uuid cls hc]
+        · exact ih r hr m hm
+
+theorem call_image (cls f : String) (hc : ImgCls cls)
+    (hf : Expected.dyld.funs.find? (·.name == f) = some ⟨f, Expected.handleImage cls⟩) (x : Kevent) (h4 : x.values.length = 4) :
+    callFuel Expected.dyld env nested callDepth f [x] t =
+      (match uuidBytes x with | .ok u => .ok (imgObj cls x u) | .error e => .error e, t) := by
+  obtain ⟨a, b, c, d, hv⟩ := len4 _ h4
+  have hm : ∀ (u : Val) (p q : Val), mkObj Expected.dyld cls [x] [u, p, q] = .ok (.obj cls [x] [u, p, q]) := by
+    intro u p q; rcases hc with rfl | rfl <;> rfl
+  show (match Expected.dyld.funs.find? (·.name == f) with
+    | Option.none => (Except.error PyErr.unmodelled, t)
+    | some d =>
+      match exec Expected.dyld env nested (callFuel Expected.dyld env nested 1) [x] d.body { loc := Locals.empty, tabs := t } with
+      | (.ret v, st) => (Except.ok v, st.tabs) | (.normal, st) => (.ok .none, st.tabs) | (.err e, st) => (.error e, st.tabs)) = _
+  rw [hf]
+  by_cases hlen : (x.data.take 16).length = 16 <;> have hlen' := hlen <;> simp only [List.length_take] at hlen'
+  · simp [Expected.handleImage, exec, eval, evalArgs, Expected.word, Expected.first, attrOf_kevent, keventAttr, hv, hm,
+      Locals.set, uuidBytes, hlen, hlen', imgObj, arg]
+  · simp [Expected.handleImage, exec, eval, evalArgs, Expected.word, Expected.first, attrOf_kevent, keventAttr, hv, hm,
+      Locals.set, uuidBytes, hlen, hlen', imgObj, arg]
+
+/-- `[handle_uuid_map_a(parser, [e]) for e in l]` -/
+theorem mapLoop_image (cls f : String) (hc : ImgCls cls)
+    (hf : Expected.dyld.funs.find? (·.name == f) = some ⟨f, Expected.handleImage cls⟩)
+    (l : List Kevent) (hl : ∀ x ∈ l, x.values.length = 4) :
+    mapLoop (callFuel Expected.dyld env nested callDepth f) (fun r => .ok r) l t =
+      (match masterOf cls l with | .ok M => .ok (M.map (·.2.1)) | .error e => .error e, t) := by
+  induction l with
+  | nil => rfl
+  | cons x xs ih =>
+    have h4 := hl x (by simp)
+    have ih' := ih (fun y hy => hl y (by simp [hy]))
+    simp only [mapLoop, call_image env nested t cls f hc hf x h4, masterOf]
+    cases uuidBytes x with
+    | error e => rfl
+    | ok u =>
+      simp only [ih']
+      cases masterOf cls xs <;> rfl
+
+theorem keysOf_master (M : List (Nat × (Val × Bytes)))
+    (hg : ∀ m ∈ M, attrOf Expected.dyld m.2.1 "load_addr" = .ok (.int m.1)) :
+    keysOf Expected.dyld "load_addr" (M.map (·.2.1)) = .ok (M.map fun p => (p.1, p.2.1)) := by
+  induction M with
+  | nil => rfl
+  | cons m ms ih =>
+    simp only [List.map_cons, keysOf, hg m (by simp), ih (fun x hx => hg x (by simp [hx]))]
+
+theorem images_master (M : List (Nat × (Val × Bytes)))
+    (hg : ∀ m ∈ M, imageOfVal Expected.dyld m.2.1 = some (m.1, m.2.2)) :
+    (M.map (·.2.1)).mapM (imageOfVal Expected.dyld) = some (M.map fun p => (p.1, p.2.2)) := by
+  induction M with
+  | nil => rfl
+  | cons m ms ih =>
+    rw [List.map_cons, List.mapM_cons, hg m (by simp), ih (fun x hx => hg x (by simp [hx]))]
+    rfl
+
+theorem attr_launch_mh (l : List Kevent) (a b : Val) :
+    objAttr Expected.dyld "DyldLaunchExecutable" l [a, b] "main_executable_mh" = .ok a := rfl
+theorem attr_launch_map (l : List Kevent) (a b : Val) :
+    objAttr Expected.dyld "DyldLaunchExecutable" l [a, b] "uuid_map_a" = .ok b := rfl
+theorem mkObj_launch (l : List Kevent) (a b : Val) :
+    mkObj Expected.dyld "DyldLaunchExecutable" l [a, b] = .ok (.obj "DyldLaunchExecutable" l [a, b]) := rfl
+
+theorem render_launch (l : List Kevent) (a : Nat) (b : Val) :
+    renderObj Expected.dyld "DyldLaunchExecutable" l [.int a, b] =
+      .ok s!"DBG_DYLD_TIMING_LAUNCH_EXECUTABLE, main_executable_mh: {pyHex a}" := by
+  have hc : findClass Expected.dyld "DyldLaunchExecutable" = some Expected.clsLaunch := rfl
+  simp [renderObj, hc, Expected.clsLaunch, renderPieces, renderPiece, attr_launch_mh, execS, toString_str]
+
+/-- the payload of the launch object whose `uuid_map_a` is the sorted master list -/
+theorem extra_launch (l : List Kevent) (a : Val) (M : List (Nat × (Val × Bytes)))
+    (hg : ∀ m ∈ M, imageOfVal Expected.dyld m.2.1 = some (m.1, m.2.2)) :
+    extraOf Expected.dyld "DyldLaunchExecutable" l [a, .list ((sortByKey (M.map fun p => (p.1, p.2.1))).map (·.2))] =
+      .ok (.launch (sortStable (M.map fun p => (p.1, p.2.2)))) := by
+  have h1 : (sortByKey (M.map fun p => (p.1, p.2.1))).map (·.2) = (sortByKey M).map (·.2.1) := by
+    rw [sortByKey_map (fun q : Val × Bytes => q.1) M, List.map_map]; rfl
+  have h2 : sortStable (M.map fun p => (p.1, p.2.2)) = (sortByKey M).map fun p => (p.1, p.2.2) := by
+    rw [← sortByKey_eq_sortStable, sortByKey_map (fun q : Val × Bytes => q.2) M]
+  have h3 := images_master (sortByKey M) (fun m hm => hg m (mem_sortByKey m M hm))
+  simp [extraOf, attr_launch_map, h1, h2, h3]
+
+/-- **`handle_timing_launch_executable`** -/
+theorem run_launch (e : Kevent) (rest : List Kevent) (hw : Words4 (e :: rest)) :
+    runHandler Expected.dyld env nested "DBG_DYLD_TIMING_LAUNCH_EXECUTABLE" t (e :: rest) = hDyldLaunch env t (e :: rest) := by
+  obtain ⟨a0, a1, a2, a3, hv⟩ := len4 _ (hw e (by simp))
+  have harg1 : arg e 1 = a1 := by simp [arg, hv]
+  rw [lookup_launch, runBody]
+  unfold hDyldLaunch
+  simp only [firstOf, List.head?_cons, Option.getD_some, harg1]
+  rw [mapM_eq_imgsOf, imgsOf_append, imgsOf_master "DyldUuidMapA", imgsOf_master "DyldUuidSharedCacheA"]
+  have hA4 : ∀ x ∈ (e :: rest).filter (namedExactly env "DYLD_uuid_map_a"), x.values.length = 4 :=
+    fun x hx => hw x (List.mem_filter.mp hx).1
+  have hB4 : ∀ x ∈ (e :: rest).filter (namedExactly env "DYLD_uuid_shared_cache_a"), x.values.length = 4 :=
+    fun x hx => hw x (List.mem_filter.mp hx).1
+  have hcA : ImgCls "DyldUuidMapA" := Or.inl rfl
+  have hcB : ImgCls "DyldUuidSharedCacheA" := Or.inr rfl
+  have mlA := fun t' => mapLoop_image env nested t' "DyldUuidMapA" "handle_uuid_map_a" hcA rfl _ hA4
+  have mlB := fun t' => mapLoop_image env nested t' "DyldUuidSharedCacheA" "handle_uuid_shared_cache_a" hcB rfl _ hB4
+  cases hMA : masterOf "DyldUuidMapA" ((e :: rest).filter (namedExactly env "DYLD_uuid_map_a")) with
+  | error err =>
+    simp [Expected.handleLaunch, exec, eval, mlA, hMA, finish, tabs_same_self, bind, Except.bind]
+  | ok MA =>
+    cases hMB : masterOf "DyldUuidSharedCacheA" ((e :: rest).filter (namedExactly env "DYLD_uuid_shared_cache_a")) with
+    | error err =>
+      simp [Expected.handleLaunch, exec, eval, mlA, mlB, hMA, hMB, finish, tabs_same_self, bind, Except.bind]
+    | ok MB =>
+      have hgA := master_good "DyldUuidMapA" hcA _ MA hMA
+      have hgB := master_good "DyldUuidSharedCacheA" hcB _ MB hMB
+      have hg : ∀ m ∈ MA ++ MB, imageOfVal Expected.dyld m.2.1 = some (m.1, m.2.2) ∧
+          attrOf Expected.dyld m.2.1 "load_addr" = .ok (.int m.1) := by
+        intro m hm
+        rcases List.mem_append.mp hm with hm | hm
+        · exact hgA m hm
+        · exact hgB m hm
+      have hk := keysOf_master (MA ++ MB) (fun m hm => (hg m hm).2)
+      have hx := extra_launch (e :: rest) (.int a1) (MA ++ MB) (fun m hm => (hg m hm).1)
+      simp only [List.map_append] at hk hx
+      simp [Expected.handleLaunch, exec, eval, mlA, mlB, hMA, hMB, Locals.set, hk, evalArgs, Expected.word, Expected.first,
+        attrOf_kevent, keventAttr, hv, mkObj_launch, finish, hx, render_launch, bind, Except.bind, pure, Except.pure, mk]
+
+end dyld
+
+/-! ### the whole parser with the four composite handlers interpreted -/
+
+theorem handleWith_nested_congr (n₁ n₂ : NestedFn) (env : Env) (t : Tabs) (name : String) (w : List Kevent)
+    (h : ∀ t', n₁ t' (realEvents w) = n₂ t' (realEvents w)) :
+    handleWith n₁ env t name w = handleWith n₂ env t name w := by
+  unfold handleWith
+  split <;> first | rfl | skip
+  unfold hMachVmfault vmfaultCore
+  simp only [h]
+
+theorem words4_realEvents (w : List Kevent) (h : Words4 w) : Words4 (realEvents w) := by
+  intro x hx
+  simp only [realEvents, List.mem_filter] at hx
+  exact h x (List.mem_of_mem_drop (List.dropLast_subset _ hx.1))
+
+theorem hMachVmfault_nested_congr (n₁ n₂ : NestedFn) (env : Env) (t : Tabs) (w : List Kevent)
+    (h : ∀ t', n₁ t' (realEvents w) = n₂ t' (realEvents w)) :
+    hMachVmfault n₁ env t w = hMachVmfault n₂ env t w := by
+  unfold hMachVmfault vmfaultCore
+  simp only [h]
+
+theorem handleVia_eq (n₁ n₂ : NestedFn) (env : Env) (t : Tabs) (name : String) (e : Kevent) (rest : List Kevent)
+    (hw : Words4 (e :: rest)) (h : ∀ t', n₁ t' (realEvents (e :: rest)) = n₂ t' (realEvents (e :: rest))) :
+    handleVia Expected.progs n₁ env t name (e :: rest) = handleWith n₂ env t name (e :: rest) := by
+  unfold handleVia
+  by_cases h1 : name = "PERF_Event"
+  · subst h1
+    simp only [BEq.rfl, Bool.true_or, if_true]
+    rw [show Expected.progs.perf = Expected.perf from rfl, run_event env n₁ t e rest hw]
+    simp [handleWith]
+  by_cases h2 : name = "PERF_THD_Data"
+  · subst h2
+    simp only [BEq.rfl, Bool.or_true, if_true]
+    rw [show Expected.progs.perf = Expected.perf from rfl, run_thdData env n₁ t e rest (hw e (by simp))]
+    simp [handleWith]
+  by_cases h3 : name = "MACH_vmfault"
+  · subst h3
+    rw [if_neg (by decide), if_pos (by decide), show Expected.progs.mach = Expected.mach from rfl,
+      run_vmfault env n₁ t e rest hw, hMachVmfault_nested_congr n₁ n₂ env t _ h]
+    simp [handleWith]
+  by_cases h4 : name = "DBG_DYLD_TIMING_LAUNCH_EXECUTABLE"
+  · subst h4
+    rw [if_neg (by decide), if_neg (by decide), if_pos (by decide), show Expected.progs.dyld = Expected.dyld from rfl,
+      run_launch env n₁ t e rest hw]
+    simp [handleWith]
+  have e1 : (name == "PERF_Event" || name == "PERF_THD_Data") = false := by simp [h1, h2]
+  have e3 : (name == "MACH_vmfault") = false := by simp [h3]
+  have e4 : (name == "DBG_DYLD_TIMING_LAUNCH_EXECUTABLE") = false := by simp [h4]
+  simp only [e1, e3, e4, Bool.false_eq_true, if_false]
+  exact handleWith_nested_congr n₁ n₂ env t name _ h
+
+theorem parseFuelVia_eq : ∀ (fuel : Nat) (env : Env) (t : Tabs) (events : List Kevent), Words4 events →
+    parseFuelVia Expected.progs fuel env t events = parseFuel fuel env t events := by
+  intro fuel
+  induction fuel with
+  | zero => intro env t events _; rfl
+  | succ fuel ih =>
+    intro env t events hw
+    cases events with
+    | nil => rfl
+    | cons e rest =>
+      simp only [parseFuelVia, parseFuel, parseEventListVia, parseEventListWith]
+      cases env.codes e.eventid with
+      | none => rfl
+      | some name =>
+        simp only
+        split
+        · exact handleVia_eq _ _ env t name e rest hw (fun t' => ih env t' _ (words4_realEvents _ hw))
+        · rfl
+
+theorem feedVia_eq (env : Env) (s : PState) (e : Kevent) (hs : PInv (fun x => x.values.length = 4) s.pairing)
+    (he : e.values.length = 4) : feedVia Expected.progs env s e = feed env s e := by
+  have hi := (step_inv (fun x => x.values.length = 4) env.domOf s.pairing e hs he).2
+  unfold feedVia feed
+  cases hp : Pairing.step env.domOf s.pairing e with
+  | mk p' o =>
+    rw [hp] at hi
+    cases o with
+    | none => rfl
+    | some w =>
+      have hw : Words4 w := (hi w rfl).all
+      simp only [parseEventListViaIR, parseEventList, parseFuelVia_eq _ env s.tabs w hw]
+      cases parseFuel (w.length + 1) env s.tabs w with
+      | error x => rfl
+      | ok r => rfl
+
+theorem runVia_eq (env : Env) : ∀ (es : List Kevent) (s : PState),
+    PInv (fun x => x.values.length = 4) s.pairing → Words4 es → runVia Expected.progs env s es = run env s es := by
+  intro es
+  induction es with
+  | nil => intro s _ _; rfl
+  | cons e es ih =>
+    intro s hs hw
+    have he : e.values.length = 4 := hw e (by simp)
+    have hes : Words4 es := fun x hx => hw x (by simp [hx])
+    simp only [runVia, run, feedVia_eq env s e hs he]
+    cases hf : feed env s e with
+    | error x => rfl
+    | ok r =>
+      obtain ⟨o, s'⟩ := r
+      have hs' : PInv (fun x => x.values.length = 4) s'.pairing := by
+        have hi := (step_inv (fun x => x.values.length = 4) env.domOf s.pairing e hs he).1
+        unfold feed at hf
+        cases hp : Pairing.step env.domOf s.pairing e with
+        | mk p' ow =>
+          rw [hp] at hf hi
+          cases ow with
+          | none => simp only [Except.ok.injEq, Prod.mk.injEq] at hf; rw [← hf.2]; exact hi
+          | some w =>
+            simp only [bind, Except.bind] at hf
+            cases hq : parseEventList env s.tabs w with
+            | error x => rw [hq] at hf; cases hf
+            | ok q => rw [hq] at hf; simp only [pure, Except.pure, Except.ok.injEq, Prod.mk.injEq] at hf; rw [← hf.2]; exact hi
+      simp only [ih s' hs' hes]
+      cases o <;> rfl
+
 end KdVerif.PyIRCo
